@@ -310,6 +310,15 @@ func TestVerif_C02_Injection(t *testing.T) {
 				s.ag.tick()
 			}
 		}
+		// the application may replace the remote credentials of a running session (SetRemoteCredentials): checks
+		// still outstanding were signed under the old ones, but what counts for an answer is the current password
+		if (phase == "checking" || phase == "connected") && rapid.IntRange(0, 3).Draw(rt, "remoteCredentialsReplaced") == 0 {
+			prev = c02Creds{s.ag.ufrag, s.ag.pwd, s.peer.ufrag, s.peer.pwd}
+			s.peer.ufrag, s.peer.pwd = "peerUfragRekeyed", "peerPasswordAfterRekeyingPassword"
+			if err := s.ag.a.SetRemoteCredentials(s.peer.ufrag, s.peer.pwd); err != nil {
+				rt.Fatalf("harness: SetRemoteCredentials: %v", err)
+			}
+		}
 		// application data from the signalled endpoints may have been flowing before the injected message
 		// (this fills the agent's per-candidate cache of validated source addresses)
 		if phase != "fresh" && rapid.Bool().Draw(rt, "dataBefore") {
